@@ -680,19 +680,22 @@ static std::string run_sdk(const std::vector<std::string> &t)
   bool fast = temps.size() == 1 && temps[0] == sm::AggregationTemporality::kDelta;
   // provider, registry, view and selectors through the constructors or the *Factory::Create overloads (metrics_factories.h)
   const uint64_t hash = vhm::case_hash(t);
-  auto mp_p           = vhm::make_provider(hash, vhm::mix(hash, 1) % 2 ? vhm::make_registry(hash) : nullptr, nullptr, nullptr).provider;
+  // the view goes into the ViewRegistry handed to the provider, or is added with MeterProvider::AddView afterwards
+  std::unique_ptr<sm::ViewRegistry> registry;
+  if (vhm::mix(hash, 1) % 2) registry = vhm::make_registry(hash);
+  auto view = vhm::make_view(hash, "c", "", "", sm::AggregationType::kDefault, nullptr, std::move(proc));
+  auto is   = vhm::make_isel(hash, sm::InstrumentType::kCounter, "c", "");
+  auto ms   = vhm::make_msel(hash, "m", "1", "s");
+  const bool view_first = registry != nullptr;
+  if (view_first) registry->AddView(std::move(is), std::move(ms), std::move(view));
+  auto mp_p             = vhm::make_provider(hash, std::move(registry), nullptr, nullptr).provider;
   sm::MeterProvider &mp = *mp_p;
+  if (!view_first) mp.AddView(std::move(is), std::move(ms), std::move(view));
   std::vector<std::shared_ptr<Reader>> readers;
   for (auto tp : temps)
   {
     readers.emplace_back(new Reader(tp));
     mp.AddMetricReader(readers.back());
-  }
-  {
-    auto view = vhm::make_view(hash, "c", "", "", sm::AggregationType::kDefault, nullptr, std::move(proc));
-    auto is   = vhm::make_isel(hash, sm::InstrumentType::kCounter, "c", "");
-    auto ms   = vhm::make_msel(hash, "m", "1", "s");
-    mp.AddView(std::move(is), std::move(ms), std::move(view));
   }
   auto meter   = mp.GetMeter("m", "1", "s");
   const bool dbl = t[1] == "sdkd";  // a double counter: DoubleCounter::Add -> RecordDouble
